@@ -78,7 +78,7 @@ let handle (line : string) : string =
       let maxlen = Stdlib.List.fold_left (fun a s -> max a (String.length s)) 0 es in
       (* the rational checker is quadratic in the size of exact fractions: run it up to ~40-digit entries,
          and on larger ones only for small shapes *)
-      let small = maxlen <= 40 || (maxlen <= 320 && m <= 3) in
+      let small = (maxlen <= 40 || (maxlen <= 320 && m <= 3)) && Sys.getenv_opt "C10_NORATIONAL" = None in
       (match ring with
        | "Z" ->
            let a = rows_of m n (Stdlib.List.map z_of_string es) in
